@@ -63,17 +63,17 @@ package ecs
 //@ pred poolInv(p *entityPool) :=
 //@      uint64(len(p.entities)) <= 1<<32 && uint64(p.reserved) <= uint64(len(p.entities))
 //@   && *epAlive(p) + uint64(p.available) + uint64(p.reserved) == uint64(len(p.entities))
-//@   && (forall i uint32 :: p.reserved <= entityID(i) && uint64(i) < uint64(len(p.entities)) && epRank(p)[i] == 0 ==>
-//@         uint32(p.entities[i].id) == i)
-//@   && (forall i uint32 :: p.reserved <= entityID(i) && uint64(i) < uint64(len(p.entities)) && epRank(p)[i] != 0 ==>
-//@         epRank(p)[i] <= uint64(p.available) && epFree(p)[epRank(p)[i]-1] == i)
-//@   && (forall k uint64 :: k < uint64(p.available) ==>
-//@         p.reserved <= entityID(epFree(p)[k]) && uint64(epFree(p)[k]) < uint64(len(p.entities)) && epRank(p)[epFree(p)[k]] == k+1)
-//@   && (forall k uint64 :: 1 <= k && k < uint64(p.available) ==> uint32(p.entities[epFree(p)[k]].id) == epFree(p)[k-1])
+//@   && (forall i uint32 :: __trigger(epRank(p)[i]) && (p.reserved <= entityID(i) && uint64(i) < uint64(len(p.entities)) && epRank(p)[i] == 0 ==>
+//@         uint32(p.entities[i].id) == i))
+//@   && (forall i uint32 :: __trigger(epRank(p)[i]) && (p.reserved <= entityID(i) && uint64(i) < uint64(len(p.entities)) && epRank(p)[i] != 0 ==>
+//@         epRank(p)[i] <= uint64(p.available) && epFree(p)[epRank(p)[i]-1] == i))
+//@   && (forall k uint64 :: __trigger(epFree(p)[k]) && (k < uint64(p.available) ==>
+//@         p.reserved <= entityID(epFree(p)[k]) && uint64(epFree(p)[k]) < uint64(len(p.entities)) && epRank(p)[epFree(p)[k]] == k+1))
+//@   && (forall k uint64 :: __trigger(epFree(p)[k]) && (1 <= k && k < uint64(p.available) ==> uint32(p.entities[epFree(p)[k]].id) == epFree(p)[k-1]))
 //@   && (p.available > 0 ==> uint32(p.next) == epFree(p)[uint64(p.available)-1])
-//@   && (forall h Entity :: epIssued(p)[h] ==>
+//@   && (forall h Entity :: __trigger(epIssued(p)[h]) && (epIssued(p)[h] ==>
 //@         p.reserved <= h.id && uint64(h.id) < uint64(len(p.entities)) && h.gen <= p.entities[h.id].gen
-//@         && (h.gen == p.entities[h.id].gen ==> epRank(p)[uint32(h.id)] == 0))
+//@         && (h.gen == p.entities[h.id].gen ==> epRank(p)[uint32(h.id)] == 0)))
 
 //@ func (*entityPool).Get
 //@   serves C02 C17
@@ -82,6 +82,8 @@ package ecs
 //@   ensures  inv: poolInv(p)
 //@   ensures  fresh: !old(epIssued(p)[result])
 //@   ensures  alive: alive(p, result) && p.reserved <= result.id
+//@   ensures  grow: len(p.entities) == old(len(p.entities)) || (len(p.entities) == old(len(p.entities)) + 1 && int(result.id) == old(len(p.entities)))
+//@   ensures  kept: forall i uint32 :: __trigger(p.entities[i].gen) && (uint64(i) < uint64(old(len(p.entities))) && entityID(i) != result.id ==> p.entities[i] == old(p.entities[i]))
 //@   ensures  others: forall h Entity :: h.id != result.id ==> alive(p, h) == old(alive(p, h))
 //@   ensures  issued: forall h Entity :: epIssued(p)[h] == (old(epIssued(p)[h]) || h == result)
 //@   ensures  count: *epAlive(p) == old(*epAlive(p)) + 1
